@@ -462,12 +462,40 @@ func tbl(r *Run, focus string) {
 				c.addr.IP = ip.To4()
 			}
 		}
+		local := false
+		if tw.secure && r.Rng.Intn(6) == 0 {
+			// private, loopback and link-local addresses: BEP 42 exempts them, any id is valid there
+			local = true
+			var ip net.IP
+			b := func() byte { return byte(1 + r.Rng.Intn(250)) }
+			switch r.Rng.Intn(5) {
+			case 0:
+				ip = net.IPv4(10, b(), b(), b())
+			case 1:
+				ip = net.IPv4(172, byte(16+r.Rng.Intn(16)), b(), b())
+			case 2:
+				ip = net.IPv4(192, 168, b(), b())
+			case 3:
+				ip = net.IPv4(169, 254, b(), b())
+			default:
+				ip = net.IPv4(127, b(), b(), b())
+			}
+			if c.addr.IP.To4() == nil {
+				ip = net.ParseIP(fmt.Sprintf("fe80::%x:%x", 1+r.Rng.Intn(0xfffe), 1+r.Rng.Intn(0xfffe)))
+			} else if dual {
+				ip = ip.To16()
+			} else {
+				ip = ip.To4()
+			}
+			c.addr.IP = ip
+			r.Probe("local-network-contact")
+		}
 		if prefix >= 0 {
 			c.id = IDWithPrefix(r.Rng, tw.sid, prefix)
 		} else {
 			c.id = r.RandID()
 		}
-		if tw.secure && r.Rng.Intn(4) > 0 {
+		if tw.secure && !local && r.Rng.Intn(4) > 0 {
 			// keep the bucket (prefix) only when it survives securing; otherwise the id simply lands elsewhere
 			Bep42Secure(&c.id, c.addr.IP)
 		}
